@@ -27,6 +27,7 @@ import (
 	enc "github.com/named-data/ndnd/std/encoding"
 	mg "github.com/named-data/ndnd/std/ndn/mgmt_2022"
 	spec "github.com/named-data/ndnd/std/ndn/spec_2022"
+	"github.com/named-data/ndnd/std/utils"
 	"verif/harness/common"
 )
 
@@ -137,7 +138,15 @@ func gen(g *common.Gen) {
 		if r.Chance(1, 2) {
 			kind = "hash:" + strconv.Itoa(r.Range(1, 4))
 		}
-		g.Op("new %s %s", kind, strategies[0])
+		// a third of the histories issue route registrations through the real management module; there the
+		// mutations all come from ONE goroutine (the management thread), as in the daemon
+		viaMgmt := r.Chance(1, 3)
+		if viaMgmt {
+			g.Stat("histories-via-management")
+			g.Op("new %s %s mgmt", kind, strategies[0])
+		} else {
+			g.Op("new %s %s", kind, strategies[0])
+		}
 		u := genUniverse(r)
 		faces := []uint64{5, 6, 7, 8}[:r.Range(2, 4)]
 		directHeavy = r.Chance(1, 3)
@@ -161,7 +170,7 @@ func gen(g *common.Gen) {
 		threads := make([]string, ng)
 		writers := 0
 		for t := 0; t < ng; t++ {
-			isReader := t > 0 && r.Chance(2, 5)
+			isReader := t > 0 && (r.Chance(2, 5) || viaMgmt)
 			if !isReader {
 				writers++
 			}
@@ -171,7 +180,10 @@ func gen(g *common.Gen) {
 			}
 			ops := make([]string, nops)
 			for k := range ops {
-				if isReader || r.Chance(1, 4) {
+				if viaMgmt && t > 0 && r.Chance(1, 5) {
+					ops[k] = fmt.Sprintf("cleanup,%d", common.Pick(r, faces)) // face teardown runs on the face's own goroutine
+					g.Stat("op-cleanup")
+				} else if isReader || r.Chance(1, 4) {
 					ops[k] = genRead(r, g, u)
 				} else {
 					ops[k] = genWrite(r, g, u, faces)
@@ -229,9 +241,53 @@ func init() {
 	// configured face queue size (1024) instead of the zero value (an unbuffered queue would block the sender)
 	cfg := core.DefaultConfig()
 	cfg.Core.LogLevel = "FATAL"
+	cfg.Tables.Rib.ReadvertiseNlsr = false // the harness installs its own (real) readvertiser per history
 	core.LoadConfig(cfg, "")
 	core.InitializeLogger(os.DevNull)
 	face.Configure()
+	// the real management thread (detached internal transport) and four real faces for the logical
+	// faces 5..8: rib/register refuses a face that is not in the face table
+	mgmtT, mgmtTr = mgmt.VerifC07NewMgmt()
+	for l := uint64(5); l <= 8; l++ {
+		ls := face.MakeNullLinkService(face.MakeNullTransport())
+		face.FaceTable.Add(ls)
+		realFace[l] = ls.FaceID()
+		logicalFace[ls.FaceID()] = l
+	}
+}
+
+var (
+	mgmtT       *mgmt.Thread
+	mgmtTr      *face.InternalTransport
+	mgmtMode    bool // this history issues reg / unreg through the real rib/register and rib/unregister handlers
+	realFace    = map[uint64]uint64{}
+	logicalFace = map[uint64]uint64{}
+)
+
+// rf / lf translate between the logical face numbers of the op lines and the identifiers the face table gave
+func rf(l uint64) uint64 {
+	if r, ok := realFace[l]; ok {
+		return r
+	}
+	return l + 1000000 // faces used by direct FIB commands only: never in the face table
+}
+
+func lf(r uint64) uint64 {
+	if l, ok := logicalFace[r]; ok {
+		return l
+	}
+	if r >= 1000000 {
+		return r - 1000000
+	}
+	return r
+}
+
+// ribCommand runs /localhost/nfd/rib/<verb>/<ControlParameters> through the real management module
+func ribCommand(verb string, args *mg.ControlArgs, inFace uint64) {
+	name, _ := enc.NameFromStr("/localhost/nfd/rib/" + verb)
+	params := &mg.ControlParameters{Val: args}
+	name = append(name, enc.NewBytesComponent(enc.TypeGenericNameComponent, params.Encode().Join()))
+	mgmtT.VerifC07Dispatch(&spec.Interest{NameV: name}, inFace)
 }
 
 // drainReadvertiser takes the commands the readvertiser queued since the last call.
@@ -301,7 +357,7 @@ func renderHops(hs []*table.FibNextHopEntry) string {
 	sort.Slice(hs, func(i, j int) bool { return hs[i].Cost < hs[j].Cost })
 	parts := make([]string, len(hs))
 	for i, h := range hs {
-		parts[i] = fmt.Sprintf("%d:%d", h.Nexthop, h.Cost)
+		parts[i] = fmt.Sprintf("%d:%d", lf(h.Nexthop), h.Cost)
 	}
 	sort.Slice(parts, func(i, j int) bool {
 		a, b := strings.Split(parts[i], ":"), strings.Split(parts[j], ":")
@@ -340,20 +396,30 @@ func doOp(op string) string {
 	case "adv":
 		return renderAdv()
 	case "reg":
-		rib.AddEncRoute(common.ParseNameText(f[1]), &table.Route{FaceID: common.Atou(f[2]), Origin: common.Atou(f[3]),
+		if mgmtMode {
+			ribCommand("register", &mg.ControlArgs{Name: common.ParseNameText(f[1]), FaceId: utils.IdPtr(rf(common.Atou(f[2]))),
+				Origin: utils.IdPtr(common.Atou(f[3])), Cost: utils.IdPtr(common.Atou(f[4])), Flags: utils.IdPtr(common.Atou(f[5]))}, rf(common.Atou(f[2])))
+			return "ok"
+		}
+		rib.AddEncRoute(common.ParseNameText(f[1]), &table.Route{FaceID: rf(common.Atou(f[2])), Origin: common.Atou(f[3]),
 			Cost: common.Atou(f[4]), Flags: common.Atou(f[5])})
 		return "ok"
 	case "unreg":
-		rib.RemoveRouteEnc(common.ParseNameText(f[1]), common.Atou(f[2]), common.Atou(f[3]))
+		if mgmtMode {
+			ribCommand("unregister", &mg.ControlArgs{Name: common.ParseNameText(f[1]), FaceId: utils.IdPtr(rf(common.Atou(f[2]))),
+				Origin: utils.IdPtr(common.Atou(f[3]))}, rf(common.Atou(f[2])))
+			return "ok"
+		}
+		rib.RemoveRouteEnc(common.ParseNameText(f[1]), rf(common.Atou(f[2])), common.Atou(f[3]))
 		return "ok"
 	case "cleanup":
-		rib.CleanUpFace(common.Atou(f[1]))
+		rib.CleanUpFace(rf(common.Atou(f[1])))
 		return "ok"
 	case "fins":
-		fib.InsertNextHopEnc(common.ParseNameText(f[1]), common.Atou(f[2]), common.Atou(f[3]))
+		fib.InsertNextHopEnc(common.ParseNameText(f[1]), rf(common.Atou(f[2])), common.Atou(f[3]))
 		return "ok"
 	case "frem":
-		fib.RemoveNextHopEnc(common.ParseNameText(f[1]), common.Atou(f[2]))
+		fib.RemoveNextHopEnc(common.ParseNameText(f[1]), rf(common.Atou(f[2])))
 		return "ok"
 	case "sets":
 		fib.SetStrategyEnc(common.ParseNameText(f[1]), common.ParseNameText(f[2]))
@@ -386,7 +452,7 @@ func doOp(op string) string {
 		for _, e := range rib.GetAllEntries() {
 			var rs [][4]uint64
 			for _, rt := range e.GetRoutes() {
-				rs = append(rs, [4]uint64{rt.FaceID, rt.Origin, rt.Cost, rt.Flags})
+				rs = append(rs, [4]uint64{lf(rt.FaceID), rt.Origin, rt.Cost, rt.Flags})
 			}
 			sort.Slice(rs, func(i, j int) bool {
 				for k := 0; k < 4; k++ {
@@ -425,6 +491,7 @@ func exec(op string) string {
 	}
 	res := exec1(op)
 	drainReadvertiser()
+	face.VerifC16TakeSent(mgmtTr) // responses of the management module
 	return res
 }
 
@@ -443,7 +510,8 @@ func exec1(op string) string {
 		}
 		table.FibStrategyTable = fib // the RIB writes to the process global
 		fib.SetStrategyEnc(enc.Name{}, common.ParseNameText(f[2]))
-		rib = table.VerifNewRib()
+		rib = table.VerifResetGlobalRib() // the management module works on the process-global RIB
+		mgmtMode = len(f) > 3 && f[3] == "mgmt"
 		rv, rvT = mgmt.VerifC16NewReadvertiser()
 		table.VerifSetReadvertisers(rv)
 		rvSeq, rvNames = nil, map[uint64]string{}
